@@ -445,6 +445,13 @@ func (r *wireRig) flush() {
 		r.direct = nil
 		_ = d.Stop()
 		d.Transport.CloseIdleConnections()
+		for _, sw := range []*wireSwitchTx{r.up, r.peer} {
+			sw.mu.Lock()
+			if sw.inner == transmit.Transmission(d) {
+				sw.inner = nil
+			}
+			sw.mu.Unlock()
+		}
 	}
 }
 
@@ -561,4 +568,36 @@ func wireBatchStatuses(body string) []int {
 		out[i] = r.Status
 	}
 	return out
+}
+
+// setPeer makes the given trace IDs belong to "the other shard" at addr (nil = none).
+// Only call while no request is in flight.
+func (r *wireRig) setPeer(traces []string, addr string) {
+	if len(traces) == 0 {
+		r.shard.Other = nil
+		return
+	}
+	r.shard.Other = &sharder.TestShard{Addr: addr, TraceIDs: traces}
+}
+
+// startDirect installs a fresh real DirectTransmission behind both transmission
+// switches (flush() stops it again and waits for everything to be posted).
+func (r *wireRig) startDirect(compress bool, maxBatch int) {
+	r.flush()
+	if maxBatch <= 0 {
+		maxBatch = 50
+	}
+	d := transmit.NewDirectTransmission(types.TransmitTypePeer, &http.Transport{MaxIdleConnsPerHost: 2}, maxBatch, 50*time.Millisecond, 20*time.Second, compress, nil)
+	d.Config = r.cfg
+	d.Logger = r.log
+	d.Metrics = &metrics.NullMetrics{}
+	d.Version = "verif"
+	_ = d.Start()
+	r.direct = d
+	r.up.mu.Lock()
+	r.up.inner = d
+	r.up.mu.Unlock()
+	r.peer.mu.Lock()
+	r.peer.inner = d
+	r.peer.mu.Unlock()
 }
